@@ -145,6 +145,28 @@ def p3(run, m, pats):
     run.ob('P3/second-pass-extends-the-same-list', '_preprocess', u(second[0]) if second else '?', ok, m.where(fn))
 
 
+def p3b(run, m):
+    """second collection pass: only the markers the first pass produced are left alone; any other line that looks
+    like a directive (including a user-written `#line@N`) is collected, so that put-back can index the list"""
+    fn = m.find('_remove_line_directives')
+    inner = m.find('_remove_line_directives.replace')
+    for text, already, want_ret, want_list in (('#line@1', 2, '#line@1', ('a', 'b')), ('#line@7', 2, '#line@2', ('a', 'b', '#line@7')),
+                                               ('#line@x', 2, '#line@2', ('a', 'b', '#line@x')), ('# 5 "f"', 2, '#line@2', ('a', 'b', '# 5 "f"')),
+                                               ('# 5 "f"', 0, '#line@0', ('# 5 "f"',))):
+        ev = sp.Evaluator({'m.group': lambda a, k, e, f, t=text: t})
+        env = {'markers': already > 0, 'already': already, 'line_directives': ('a', 'b')[:already]}
+        ps = ev.run(inner, env)
+        if len(ps) != 1 or not ps[0].outcome or ps[0].outcome[0] != 'return':
+            raise AnalysisError('_remove_line_directives.replace: not a single return for %r' % text)
+        got = (ps[0].outcome[1], ps[0].env.get('line_directives'))
+        run.ob('P3/only-own-markers-are-left-alone', '_remove_line_directives.replace', '%s pass, line %r' % ('second' if already else 'first', text),
+               got == (want_ret, want_list), m.where(inner), 'returns %r, list becomes %r; expected %r, %r' % (got[0], got[1], want_ret, want_list))
+    # put-back indexes the list with the marker number: every marker it can meet must be below len(list)
+    pb = m.find('_put_back_line_directives.replace')
+    idx = [n for n in ast.walk(pb) if isinstance(n, ast.Subscript) and u(n.value) == 'line_directives']
+    run.ob('P3/put-back-indexes-with-the-marker-number', '_put_back_line_directives.replace', u(idx[0]) if idx else '?', len(idx) == 1 and u(idx[0].slice) == 'int(s[6:])', m.where(pb))
+
+
 def p4(run, m):
     fn = m.find('_preprocess')
     loops = [n for n in ast.walk(fn) if isinstance(n, ast.For) and '_r_define.finditer' in u(n.iter)]
@@ -189,11 +211,12 @@ def check(run):
     p1(run, m)
     p2(run, m, pats)
     p3(run, m, pats)
+    p3b(run, m)
     p4(run, m)
     p5(run, m, pats)
     run.assume('pycparser skips exactly space, tab and newline between tokens (its hand-written lexer is a dependency, not analysed); '
                'cdef sources contain no string literals outside line directives (documented restriction of cffi)')
     run.assume('decided: what the three patterns denote on the listed classes, what replaces a comment, the order of the rewrites and the white-space '
                'normalisation; not decided: byte-identity of emit_c_code() for every insertion (that quantifies over all texts)')
-    for rule, k in (('P1', 5), ('P2', 30), ('P3', 6), ('P4', 6), ('P5', 6)):
+    for rule, k in (('P1', 5), ('P2', 30), ('P3', 12), ('P4', 6), ('P5', 6)):
         run.min_instances(rule, k)
